@@ -29,7 +29,6 @@ def parse_reply(o):
 def run(ctx):
     ctx.build_go()
     T = ctx.tables()
-    ctx.regen({'LogRx.lean': tolean.log_rx(T)})
     ctx.driver_path = ctx.driver()
     broken = ctx.audit(THEOREMS)
     rng = ctx.rng
